@@ -213,7 +213,10 @@ def run(
     specdir = specdir or SPECS
     meta = OUT / "tlc" / uuid.uuid4().hex
     meta.mkdir(parents=True, exist_ok=True)
-    cmd = java_cmd("tlc2.TLC", jvm) + [
+    jcmd = java_cmd("tlc2.TLC", jvm)
+    # TLC leaves an empty tlc-<n> directory in java.io.tmpdir per run: keep it in the metadir
+    jcmd.insert(1, f"-Djava.io.tmpdir={meta}")
+    cmd = jcmd + [
         "-workers",
         str(workers),
         "-metadir",
